@@ -231,6 +231,52 @@ class Canon:
             self._inl[lid] = r
         return r
 
+    def straight_value(self, local):
+        """Value of a mutable local at a use when everything that happened to it since its `let` is straight-line:
+        `let mut v = a; v |= b; v = v + c; .. use(v)` -> the expression ((a | b) + c) as a synthetic node.
+        None when some update sits in a branch / loop / closure relative to the let, or is not a plain
+        (compound) assignment to the local itself."""
+        lid = local.get("lid")
+        d = self.defs.get(lid)
+        if d is None or d[0] != "let" or d[2]:
+            return None
+        muts = [m for m in self.mutations if m[0] == lid]
+        if not muts:
+            return d[1]
+        let_stmt = None
+        for x, _ in H.walk(self.body["body"]):
+            if x.get("k") == "LetStmt" and x.get("init") is d[1]:
+                let_stmt = x
+                break
+        if let_stmt is None:
+            return None
+        blk = self.parent.get(id(let_stmt))
+        if blk is None or blk.get("k") != "Block":
+            return None
+        use_pos = (local.get("sp") or [None])[0]
+        val = d[1]
+        for _, names, pos, node in sorted(muts, key=lambda m: m[2]):
+            if use_pos is not None and pos > use_pos:
+                # a later update: fine unless the use can run again after it (shared loop)
+                for lo, hi in self.loops:
+                    if lo <= pos <= hi and lo <= use_pos <= hi:
+                        return None
+                continue
+            if names or node.get("k") not in ("Assign", "AssignOp") or peel(node["l"]).get("k") != "Local":
+                return None
+            # the update statement must be a direct statement of the let's block
+            st = self.parent.get(id(node))
+            if st is None or st.get("k") != "ExprStmt" or self.parent.get(id(st)) is not blk:
+                if not (st is blk):
+                    return None
+            if node["k"] == "AssignOp":
+                val = {"k": "Binary", "op": node["op"][:-1], "l": val, "r": node["r"], "ty": local.get("ty"), "sp": node.get("sp"), "synthetic": True}
+            else:
+                if any(x.get("k") == "Local" and x.get("lid") == lid for x, _ in H.walk(node["r"])):
+                    return None
+                val = node["r"]
+        return val
+
     def _chain(self, n):
         out = [n]
         cur = self.parent.get(id(n))
@@ -873,6 +919,46 @@ class Index:
             if c is not None and (c is node or self.contains(c, node)):
                 return True
         return False
+
+    CASE_KINDS = ("if", "else", "arm", "arm-guard", "guard", "guard-else", "let-else", "arm-exit", "ok_or")
+
+    def result_cases(self, canon=None):
+        """The function's result as a case table, independent of how the cases are spelled:
+        [(sorted conditions under which this result is produced, canonical value, node)] for every result leaf —
+        leaves of the body's tail expression through if / match / blocks and the operands of `return`.
+        `if c { return A } B`, `if c { A } else { B }` and `if !c { B } else { A }` give the same table."""
+        canon = canon or self.canon
+        leaves = []
+
+        def rec(n):
+            n0 = peel(n) if n is not None else None
+            if n0 is None:
+                return
+            k = n0.get("k")
+            if k == "Block":
+                if n0.get("expr") is not None:
+                    rec(n0["expr"])
+                elif n0.get("ty") != "!":
+                    leaves.append(n0)
+            elif k == "If" and n0.get("else") is not None:
+                rec(n0["then"])
+                rec(n0["else"])
+            elif k == "Match" and n0.get("src", "match") == "match":
+                for a in n0["arms"]:
+                    rec(a["body"])
+            elif k == "Ret" or n0.get("ty") == "!":
+                return                      # leaves through its own `return` (collected below) / diverges
+            else:
+                leaves.append(n0)
+        rec(self.root)
+        for x, _ in H.walk(self.root):
+            if x.get("k") == "Ret" and x.get("e") is not None:
+                rec(x["e"])
+        out = []
+        for lf in leaves:
+            conds = sorted(set(pc["cond"] for pc in self.path_conditions(lf) if pc["kind"] in self.CASE_KINDS))
+            out.append((conds, canon(lf), lf))
+        return out
 
     GUARD_KINDS = ("guard", "guard-else", "let-else", "arm-exit", "ok_or")
 
